@@ -149,6 +149,16 @@ def _targets_one(env: P.Env, t, base: dict, ordered: bool, backend: str) -> list
             diffs.append(dict(kind="reimport_differs", detail=d))
         if backend != "polars":
             return diffs
+        # on the Polars backend the exported frame carries each column's declared type exactly (also its width): the re-imported table
+        # declares what the original table declared
+        def norm(dt_):
+            x = str(dt_).replace("const ", "").strip()
+            return {"Int": "Int64", "Float": "Float64"}.get(x, x)
+
+        for name in base["names"]:
+            a, b = norm(t[name].dtype()), norm(t2[name].dtype())
+            if a != b and "Null" not in a and not a.startswith("List") and not a.startswith("Decimal"):
+                diffs.append(dict(kind="reimport_declared_type_differs", column=name, declared=a, reimported=b, exported=str(df.schema[name])))
         pdf = t >> pdt.export(pdt.Pandas())
         t3 = pdt.Table(pdf)
         df3 = t3 >> pdt.export(pdt.Polars())
